@@ -90,7 +90,12 @@ void muggle_async_logger_destroy(muggle_logger_t *logger)
 {
 	muggle_async_logger_t *async_logger = (muggle_async_logger_t*)logger;
 
-	muggle_channel_write(&async_logger->channel, NULL);
+	// the stop sentinel must reach the writer thread: when the channel is
+	// full, wait until the writer has made room instead of dropping it
+	while (muggle_channel_write(&async_logger->channel, NULL) != MUGGLE_OK)
+	{
+		muggle_thread_yield();
+	}
 	muggle_thread_join(&async_logger->thread);
 
 	muggle_channel_destroy(&async_logger->channel);
